@@ -263,18 +263,38 @@ def rule_prune(ctx):
            "(file overlaps [S, E) and lasts <= one finest period and sits in the directory of its start) => its directory passes on both levels",
            node=tries[0], func=h, witness=bad)
     # fallback: year-only comparison with the same shape
-    # fallback: year-only comparison with the same shape, decided on all orderings of (year, start.year) and (end year, end.year)
+    # fallback (datetime construction failed: coarse fields only): it must never prune a directory that lies inside the searched
+    # range - decided over all small (year, month) combinations, the range compared lexicographically
     okfb = True
-    for y, sy, ey, eny in itertools.product(range(3), repeat=4):
-        env = {"year": y, "%s.year" % hs: sy, "attr_end['year']": ey, 'attr_end["year"]': ey, "%s.year" % he: eny}
+    wit_fb = None
+    rng = range(3)
+    for ys, ms, ye, me, sy, sm, ey, em in itertools.product(rng, repeat=8):
+        if (ys, ms) > (ye, me) or (sy, sm) > (ey, em):
+            continue
+        inside = (sy, sm) <= (ys, ms) and (ye, me) <= (ey, em)
+        if not inside:
+            continue
+        env = {"year": ys, "%s.year" % hs: sy, "%s.month" % hs: sm, "%s.year" % he: ey, "%s.month" % he: em}
+        for q in ("'", '"'):
+            env["attr_start[%syear%s]" % (q, q)] = ys
+            env["attr_start[%smonth%s]" % (q, q)] = ms
+            env["attr_end[%syear%s]" % (q, q)] = ye
+            env["attr_end[%smonth%s]" % (q, q)] = me
+            env["%smonth%s in attr_start" % (q, q)] = True
+            env["%smonth%s in attr_end" % (q, q)] = True
+            env["attr_start.get(%smonth%s)" % (q, q)] = ms
+            env["attr_start.get(%smonth%s, None)" % (q, q)] = ms
         try:
             got = bool(Interp(env).ev(fbx))
         except AnalysisError as e_:
             raise AnalysisError("_check_placeholders: fallback %s outside the model: %s" % (norm(fbx)[:80], e_))
-        if got != (y >= sy and ey <= eny):
+        if not got:
             okfb = False
-    ctx.ob("FileSet._check_placeholders.fallback", okfb, "%s" % norm(fbx),
-           "the year-only fallback keeps the same shape (>= start, <= end)", node=tries[0].handlers[0], func=h)
+            wit_fb = {"directory": [(ys, ms), (ye, me)], "searched": [(sy, sm), (ey, em)], "fallback": got}
+            break
+    ctx.ob("FileSet._check_placeholders.fallback", okfb, "%s" % norm(fbx)[:160],
+           "a directory inside the searched range (year, month compared lexicographically) is never pruned by the coarse fallback",
+           node=tries[0].handlers[0], func=h, witness=wit_fb)
 
 
 def rule_exclude(ctx):
